@@ -67,6 +67,16 @@ func applyUnifiedDiff(repo string, patch []byte) (map[string][]byte, error) {
 		case strings.HasPrefix(l, "+++ "):
 			flush()
 			file = strings.TrimPrefix(strings.TrimPrefix(l, "+++ "), "b/")
+			if file == "/dev/null" {
+				return nil, fmt.Errorf("patch deletes a file: not supported in memory")
+			}
+			if i > 0 && strings.HasPrefix(lines[i-1], "--- /dev/null") {
+				// a file the patch creates
+				cur = nil
+				offset = 0
+				i++
+				continue
+			}
 			b, err := os.ReadFile(filepath.Join(repo, file))
 			if err != nil {
 				return nil, err
